@@ -209,13 +209,16 @@ def run(ctx):
 
     # ------------------------------------------------------------------ the values
     en_atoms = [gen.mk_atom(b, f) for b, f in [('S', None), ('S', 'dcl'), ('S', 'X'), ('NP', None), ('NP', 'X'), ('NP', 'nb'), ('N', None), (',', None), ('conj', None)]]
-    ja_atoms = [gen.mk_atom('S', gen.JA_FEATS[0]), gen.mk_atom('S', gen.JA_FEATS[1]), gen.mk_atom('NP', gen.JA_FEATS[3]), gen.mk_atom('NP', gen.JA_FEATS[5]), gen.mk_atom('S', None)]
+    # incl. the same key=value pairs in another ORDER (a different value: order is part of the structure, of the text and of the hash)
+    perm = lambda f: (f[1], f[0], f[2])
+    ja_atoms = [gen.mk_atom('S', gen.JA_FEATS[0]), gen.mk_atom('S', gen.JA_FEATS[1]), gen.mk_atom('NP', gen.JA_FEATS[3]), gen.mk_atom('NP', gen.JA_FEATS[5]),
+                gen.mk_atom('S', None), gen.mk_atom('NP', perm(gen.JA_FEATS[3])), gen.mk_atom('S', perm(gen.JA_FEATS[0]))]
     if ctx.quick:
         vals = gen.enum_cats(en_atoms, gen.SLASHES, 2) + gen.enum_cats(ja_atoms, gen.SLASHES[:2], 2)
         n_mixed, n_rand, n_inv = 20, 50, 30
     else:
         small = gen.enum_cats(en_atoms, gen.SLASHES, 2) + gen.enum_cats(ja_atoms, gen.SLASHES[:2], 2)
-        three = [c for c in gen.enum_cats(en_atoms[:6], gen.SLASHES[:2], 3) + gen.enum_cats(ja_atoms[:4], gen.SLASHES[:2], 3) if gen.size(c) == 3]
+        three = [c for c in gen.enum_cats(en_atoms[:6], gen.SLASHES[:2], 3) + gen.enum_cats(ja_atoms[:4] + ja_atoms[5:6], gen.SLASHES[:2], 3) if gen.size(c) == 3]
         ctx.stats['values_3_atoms_total'] = len(three)
         vals = small + rng.sample(three, min(len(three), 330))
         n_mixed, n_rand, n_inv = 40, 80, 90
